@@ -339,6 +339,7 @@ type Runner struct {
 	byBack   map[string]int
 	solverT  float64
 	both     bool // thorough: require agreement of two solvers
+	reseed   bool // retry runner: race additional, differently seeded solver runs
 }
 
 func NewRunner(timeout int, useCache bool) *Runner {
@@ -387,6 +388,20 @@ func (r *Runner) Solve(vc *VC, o *Obl, idx int) *Result {
 	type ans struct {
 		solver, verdict, out string
 		t              float64
+	}
+	solvers := solvers
+	if r.reseed {
+		// retries also race differently seeded runs: z3's search on quantified goals is chaotic, a
+		// goal that one seed decides in seconds another may not decide at all
+		for _, sd := range []int{7, 23} {
+			sd := sd
+			solvers = append(solvers, solverSpec{fmt.Sprintf("z3-5.1.0#seed%d", sd), func(f string, sec int) []string {
+				return []string{"z3-new", fmt.Sprintf("-T:%d", sec), fmt.Sprintf("smt.random_seed=%d", sd), fmt.Sprintf("sat.random_seed=%d", sd), f}
+			}})
+		}
+		solvers = append(solvers, solverSpec{"cvc5-1.0#seed7", func(f string, sec int) []string {
+			return []string{"cvc5", fmt.Sprintf("--tlimit=%d", sec*1000), "--produce-models", "--seed=7", f}
+		}})
 	}
 	ch := make(chan ans, len(solvers))
 	for _, s := range solvers {
